@@ -1,5 +1,127 @@
-(* C16 — property theorems (placeholder until the model is built). *)
-From WI Require Import Lib.Base Lib.Info Model.Curve Proofs.Curve.
-Theorem C16_placeholder : True.
-Proof. exact I. Qed.
-Print Assumptions C16_placeholder.
+(* C16 — a curve name is inferred from explicit EC domain parameters only on an exact match.
+   Only statements; proofs are in Proofs/Curve.v.  [infer p] is the model of
+   CurveNameFromParameters (internal/crypto/elliptic/curves.go, after the repairs of F5 and
+   F6) on the decoded field values [p] of an ECParameters structure; [nist] is the independent
+   table of Spec/C16.v (FIPS 186-4 D.1.2 / SP 800-186); [zbe] reads octets as a big-endian integer. *)
+From WI Require Import Lib.Base Lib.Info Lib.CurveRow Model.Curve Proofs.Curve.
+From WI Require Import Spec.C16.
+Open Scope N_scope.
+
+(* T1: every row of the table regenerated from the running code carries one of the four names,
+   and its key (the prime, in decimal), a, b, Gx, Gy (octet strings of the field length), order and
+   seed are those of that curve in the standard; and the standard's base point satisfies
+   y^2 = x^3 + a x + b (mod p), which no transcription error in p, b, Gx or Gy survives *)
+Theorem C16_table_genuine : forall c, In c table ->
+  exists k, nist (c_name c) = Some k /\
+    (c_key c = dec_of_Z (n_p k) /\
+     length (c_a c) = n_flen k /\ zbe (c_a c) = n_a k /\
+     length (c_b c) = n_flen k /\ zbe (c_b c) = n_b k /\
+     length (c_gx c) = n_flen k /\ zbe (c_gx c) = n_gx k /\
+     length (c_gy c) = n_flen k /\ zbe (c_gy c) = n_gy k /\
+     c_order c = n_n k /\ c_seed c = n_seed k) /\
+    ((n_gy k) ^ 2 mod n_p k = ((n_gx k) ^ 3 + n_a k * n_gx k + n_b k) mod n_p k)%Z.
+Proof. exact table_genuine. Qed.
+Print Assumptions C16_table_genuine.
+
+(* ... and each of the four curves has a row; keys are pairwise distinct, so the model's list
+   lookup is Go's map lookup *)
+Theorem C16_table_complete : forall nm k, nist nm = Some k -> exists c, In c table /\ c_name c = nm.
+Proof. exact table_complete. Qed.
+Print Assumptions C16_table_complete.
+
+Theorem C16_table_ok : table_ok table = true.
+Proof. exact table_ok_now. Qed.
+Print Assumptions C16_table_ok.
+
+(* exactness: a name is inferred only if the field is a prime field, the prime, both
+   coefficients and the order are the curve's, and the base point is the curve's generator:
+   04 || X || Y with both coordinates, or 02/03 || X with the prefix carrying the parity of Gy *)
+Theorem C16_exact : forall p nm, infer p = Ok (Some nm) ->
+  exists k, nist nm = Some k /\
+    p_field p = oid_prime_field /\ p_prime p = Some (n_p k) /\
+    length (p_a p) = n_flen k /\ zbe (p_a p) = n_a k /\
+    length (p_b p) = n_flen k /\ zbe (p_b p) = n_b k /\
+    p_order p = n_n k /\
+    ((exists x y, p_base p = 4 :: x ++ y /\ length x = n_flen k /\ length y = n_flen k /\
+                  zbe x = n_gx k /\ zbe y = n_gy k) \/
+     (exists pre x, p_base p = pre :: x /\ (pre = 2 \/ pre = 3) /\ length x = n_flen k /\
+                    zbe x = n_gx k /\ (Z.of_N pre = 2 + (n_gy k) mod 2)%Z)).
+Proof. exact infer_exact. Qed.
+Print Assumptions C16_exact.
+
+(* any deviation in any component yields no inferred name (and no failure) *)
+Theorem C16_deviation_rejected : forall p,
+  (forall nm k, nist nm = Some k -> ~ exact k p) -> infer p = Ok None.
+Proof. exact infer_deviation. Qed.
+Print Assumptions C16_deviation_rejected.
+
+(* no failure, whatever the component values (empty base point included), at every layer:
+   CurveNameFromParameters, the attribute list, the four containers *)
+Theorem C16_no_failure : forall p s, infer p <> Panic s.
+Proof. exact infer_no_panic. Qed.
+Print Assumptions C16_no_failure.
+
+Theorem C16_total : forall p, exists r, infer p = Ok r.
+Proof. exact infer_total. Qed.
+Print Assumptions C16_total.
+
+Theorem C16_no_failure_in_files : forall kind pem state p s,
+  curve_name p <> Panic s /\ explicit_attrs p <> Panic s /\ container_info kind pem state p <> Panic s.
+Proof.
+  intros. split; [apply curve_name_no_panic | split; [apply explicit_attrs_no_panic | apply container_info_no_panic]].
+Qed.
+Print Assumptions C16_no_failure_in_files.
+
+(* the string shown as "Curve (inferred)" is the display name of the row whose name [infer] returns *)
+Theorem C16_shown_name : forall p shown, curve_name p = Ok shown -> shown <> [] ->
+  exists c, In c table /\ infer p = Ok (Some (c_name c)) /\ shown = c_display c.
+Proof. exact curve_name_of_infer. Qed.
+Print Assumptions C16_shown_name.
+
+(* the executable spec checker (T3, Spec/C16.v: integers compared with the independent constants)
+   accepts every name the model shows: with the correspondence check green, a VIOLATION can only
+   come from the implementation *)
+Theorem C16_spec_checker_agrees : forall p shown, curve_name p = Ok shown -> shown <> [] ->
+  shown_ok shown (p_prime p) (p_a p) (p_b p) (p_base p) (p_order p) = true.
+Proof. exact shown_passes_spec. Qed.
+Print Assumptions C16_spec_checker_agrees.
+
+(* the genuine parameters of each curve are recognised: uncompressed or compressed base point,
+   with the standard's seed or without, any cofactor ... *)
+Theorem C16_genuine_accepted : forall nm k compressed with_seed cofactor, nist nm = Some k ->
+  infer (genuine_params k compressed with_seed cofactor) = Ok (Some nm).
+Proof. exact genuine_accepted. Qed.
+Print Assumptions C16_genuine_accepted.
+
+(* ... and through each container (SPKI, PKCS#8, SEC1 in DER and PEM; EC PARAMETERS in PEM) the
+   report carries "Curve (inferred)" with a value that starts with the curve's name *)
+Theorem C16_genuine_reported : forall nm k compressed with_seed form, nist nm = Some k ->
+  In form container_forms ->
+  shows_inferred nm (container_info (fst form) (snd form) 2 (genuine_params k compressed with_seed 1)) = true.
+Proof. exact genuine_reported. Qed.
+Print Assumptions C16_genuine_reported.
+
+(* the hypotheses of C16_exact are met by a non-trivial input *)
+Example C16_exact_nonvacuous : infer (genuine_params nist_p521 true true 1) = Ok (Some (bs "P-521")).
+Proof. vm_compute. reflexivity. Qed.
+
+(* the code before the repairs refutes the property *)
+Theorem C16_no_failure_refuted_F5 :
+  exists p, is_panic (infer_gen false true p) = true /\
+            is_panic (container_info_gen false true table 0 false 2 p) = true.
+Proof. exists witness_F5. exact F5_panics_before_repair. Qed.
+Print Assumptions C16_no_failure_refuted_F5.
+
+Theorem C16_exact_refuted_F6 :
+  exists p nm k, infer_gen true false p = Ok (Some nm) /\ nist nm = Some k /\
+                 ~ base_point_is k (p_base p).
+Proof.
+  exists witness_F6, (bs "P-256"), nist_p256.
+  split; [exact F6_inferred_before_repair | split; [reflexivity | exact F6_not_the_base_point]].
+Qed.
+Print Assumptions C16_exact_refuted_F6.
+
+(* both witnesses are handled by the repaired code *)
+Theorem C16_witnesses_now : infer witness_F6 = Ok None /\ infer witness_F5 = Ok None.
+Proof. exact F6_rejected_now. Qed.
+Print Assumptions C16_witnesses_now.
